@@ -60,6 +60,9 @@ var caseVals *[]float64
 
 func wktID(f float64) int {
 	n := len(wktVals)
+	if caseVals != nil && f == 0 {
+		f = 0 // corpus strings: -0 and 0 are the same NUMBER (a ring from 0 to -0 is closed); the sign of zero is C05's business
+	}
 	if nearMode && math.Float64bits(f) == math.Float64bits(nearVal()) {
 		return 1
 	}
@@ -303,7 +306,7 @@ func parseWKT(text string) map[string]any {
 	}
 	defer func() { wkt.VerifHook = nil }()
 	obs := map[string]any{"text": text, "verdict": "rej", "l": "-", "tree": map[string]any{"t": "-", "body": []int{}},
-		"tree2": map[string]any{"t": "-", "body": []int{}}, "uniform": true, "errok": true, "errmsg": "", "l2": "-"}
+		"tree2": map[string]any{"t": "-", "body": []int{}}, "uniform": true, "errok": true, "errmsg": "", "l2": "-", "wf": []any{}}
 	var g geom.T
 	var err error
 	if ev, msg := call(func() { g, err = wkt.Unmarshal(text) }); ev != "ok" {
@@ -321,6 +324,10 @@ func parseWKT(text string) map[string]any {
 		}
 		obs["l"] = layoutName(g.Layout())
 		obs["uniform"] = len(lay) == 1
+		// flat representation of every non-collection node ("any decoder" hands out well-formed geometries)
+		if ev, _ := call(func() { obs["wf"] = wfList(g) }); ev != "ok" {
+			obs["verdict"] = "panic-in-result:wf"
+		}
 		// re-encode and parse again
 		if ev, msg := call(func() {
 			s, err := wkt.Marshal(g)
